@@ -255,7 +255,10 @@ class C11(common.Prop):
 
     def setup(self):
         self.impl = Impl()
-        self.F = translate_c11.facts()
+        try:
+            self.F = translate_c11.facts()
+        except Exception:
+            self.F = translate_c11.facts(strict=False)      # the broken tie is reported by translate(); keep searching
 
     # ---------------------------------------------------------------- generators
     def gen_comp(self, rng, name, npts, dup):
@@ -425,7 +428,7 @@ class C11(common.Prop):
         quick = tier == "quick"
         for c in self.enum_cases(rng, 3 if quick else 5):
             yield c
-        n = 450 if quick else 9000
+        n = 450 if quick else 30000
         for i in range(n):
             pd = self.gen_generic_pose(rng)
             r = rng.random()
@@ -440,12 +443,12 @@ class C11(common.Prop):
                     c = pd["comps"][-1]["name"]
                 args = {"op": "index", "comp": c, "point": p}
             yield {"be": rng.choice(BACKENDS), "pose": pd, "args": args, "kind": "generic"}
-        for i in range(40 if quick else 500):
+        for i in range(40 if quick else 1500):
             yield self.gen_shaped(rng, "openpose")
-        for i in range(16 if quick else 160):
+        for i in range(16 if quick else 400):
             yield self.gen_shaped(rng, "holistic")
         # selections on format-shaped headers (large components)
-        for i in range(6 if quick else 60):
+        for i in range(6 if quick else 120):
             comps = self.openpose_comps()
             pd = make_pose_desc(rng, comps, 1, rng.choice([1, 2]), 2)
             args = self.gen_get(rng, pd) if rng.random() < 0.5 else self.gen_remove(rng, pd)
@@ -609,7 +612,7 @@ class C11(common.Prop):
             fmt = self.detect(comps)
             if fmt not in ("holistic", "openpose"):
                 return None if out[0] == "err" else fail("pose_hide_legs accepted an unsupported format", kind="format")
-            table = dict(self.F["hide"][fmt])
+            table = {k: v for k, v in self.F["hide"][fmt]}
             if op == "hide_remove":
                 expected = [(c["name"], [p for p in c["points"] if p not in table.get(c["name"], [])]) for c in comps]
         elif op == "reduce":
@@ -640,7 +643,7 @@ class C11(common.Prop):
                 fmt = self.detect(comps)
                 hands = ["LEFT", "RIGHT"] if op == "wrists" else [a["hand"].upper()]
                 ok_req = fmt in ("holistic", "openpose") and all(
-                    (e[1] in flat_names(comps) and e[2] in flat_names(comps)) for e in self.F["wrist"][fmt] if e[0] in hands) and case["be"] == "np" \
+                    (tuple(e[1]) in flat_names(comps) and tuple(e[2]) in flat_names(comps)) for e in self.F["wrist"][fmt] if e[0] in hands) and case["be"] == "np" \
                     and before["dshape"][3] > 0
                 if not ok_req:
                     return None
@@ -713,6 +716,8 @@ class C11(common.Prop):
         return None
 
     def classify(self, case, failure):
+        if failure.get("kind") == "raises-tf-empty-selection":
+            return "tf-empty-selection-raises"          # F17, whichever call reaches TensorflowPoseBody.get_points([])
         return "%s:%s" % (failure.get("op", "?"), failure.get("kind", "oracle-crash"))
 
 
